@@ -432,7 +432,7 @@ fn cuts_job(base: Base, seed: u64) -> JobKind {
     let mut variants = Vec::new();
     for (i, _) in cuts.iter().enumerate() {
         if r.chance(1, 16) {
-            variants.push((i, r.below(4) as u8));
+            variants.push((i, r.below(5) as u8));
         }
     }
     JobKind::Cuts { base, cuts, variants }
@@ -591,7 +591,17 @@ impl Job {
                         p.reader = gen_reader_plan(&mut r, c as u64, &[], false);
                     }
                     Some(2) => p.wrapper = Wrapper::ReadFile,
-                    Some(_) => p.wrapper = Wrapper::File,
+                    Some(3) => p.wrapper = Wrapper::File,
+                    Some(_) => {
+                        // the writer of a pipe dies after c bytes
+                        let mut r = Rng::new(rseed);
+                        p.wrapper = Wrapper::Fifo;
+                        p.reader.sizes = match r.below(3) {
+                            0 => vec![],
+                            1 => vec![1 + r.below(64) as u32],
+                            _ => (0..4).map(|_| 1 + r.below(300) as u32).collect(),
+                        };
+                    }
                 }
             }
             JobKind::ErrMatrix { base, n } => {
@@ -704,10 +714,11 @@ impl Job {
                 p.wrapper = if hard {
                     sim_wrapper(&mut r, n)
                 } else {
-                    match r.below(12) {
+                    match r.below(13) {
                         0 => Wrapper::Cursor,
                         1 => Wrapper::ReadFile,
                         2 => Wrapper::File,
+                        3 => Wrapper::Fifo,
                         _ => sim_wrapper(&mut r, n),
                     }
                 };
